@@ -7,8 +7,8 @@ Local Open Scope Z_scope.
 Inductive cin :=
 | ICounter (h : list bytes)
 | ISubkey (h : list bytes)
-| ITable (d : N) (h : list bytes)
-| ITrim (d : N) (h : list bytes) (p : tpred) (h2 : list bytes) (p2 : option tpred)
+| ITable (d : bytes) (h : list bytes)
+| ITrim (d : bytes) (h : list bytes) (p : tpred) (h2 : list bytes) (p2 : option tpred)
 | IAccum (bad : bytes) (d : adef expr) (h : list bytes)
 | INum (keep rev : bool) (ps : list Q) (h : list (option Q))
 | IPerm (kind : N) (h1 h2 : list bytes).
@@ -52,7 +52,7 @@ Definition oA (st : amap (list bytes)) : obs := OA st (N.of_nat (List.length st)
 Definition trim_ops (h : list bytes) (p : tpred) (h2 : list bytes) (p2 : option tpred) : list top :=
   map TSample h ++ [TTrim (tpred_eval p) []] ++ map TSample h2 ++
   match p2 with Some q => [TTrim (tpred_eval q) []] | None => [] end.
-Definition trim_probe (d : N) (h h2 : list bytes) : list bytes :=
+Definition trim_probe (d : bytes) (h h2 : list bytes) : list bytes :=
   usort (map (fun x : bytes * bytes * Z => fst (fst x)) (valid3 d (h ++ h2))).
 Definition model (i : cin) : list obs :=
   match i with
@@ -68,7 +68,7 @@ Definition model (i : cin) : list obs :=
       match k with
       | 0%N => [oC (c_run h1); oC (c_run h2)]
       | 1%N => [oS (s_run h1); oS (s_run h2)]
-      | _ => [oT (t_run 0%N h1); oT (t_run 0%N h2)]
+      | _ => [oT (t_run [0%N] h1); oT (t_run [0%N] h2)]
       end
   end.
 
@@ -165,9 +165,9 @@ Definition adf (groups : list expr) (cols : list (string * expr * string)) : ade
 
 Definition kCounter (h : list string) (o : list obs) : cin * list obs := (ICounter (hxs h), o).
 Definition kSubkey (h : list string) (o : list obs) : cin * list obs := (ISubkey (hxs h), o).
-Definition kTable (d : Z) (h : list string) (o : list obs) : cin * list obs := (ITable (zn d) (hxs h), o).
-Definition kTrim (d : Z) (h : list string) (p : tpred) (h2 : list string) (p2 : option tpred) (o : list obs) : cin * list obs :=
-  (ITrim (zn d) (hxs h) p (hxs h2) p2, o).
+Definition kTable (d : string) (h : list string) (o : list obs) : cin * list obs := (ITable (unhex d) (hxs h), o).
+Definition kTrim (d : string) (h : list string) (p : tpred) (h2 : list string) (p2 : option tpred) (o : list obs) : cin * list obs :=
+  (ITrim (unhex d) (hxs h) p (hxs h2) p2, o).
 Definition kAccum (bad : string) (d : adef expr) (h : list string) (o : list obs) : cin * list obs :=
   (IAccum (unhex bad) d (hxs h), o).
 Definition kNum (keep rev : bool) (ps : list (Z * Z)) (h : list (bool * Z * Z)) (o : list obs) : cin * list obs :=
